@@ -562,6 +562,13 @@ func generate(repo, out string) error {
 	if err := writeIfChanged(filepath.Join(out, "DecoderTable.lean"), dt); err != nil {
 		return err
 	}
+	ls, err := genLuaScripts(repo)
+	if err != nil {
+		return err
+	}
+	if err := writeIfChanged(filepath.Join(out, "LuaScripts.lean"), ls); err != nil {
+		return err
+	}
 	_ = os.Stdout
 	return nil
 }
